@@ -7,3 +7,4 @@ pub mod lex;
 pub mod mutate;
 pub mod families;
 pub mod proc;
+pub mod walker;
